@@ -11,6 +11,9 @@
 (*                            recipient is neither delivered nor reported  *)
 (*  AcceptedMessageDamaged    header/body handed to the target differ from *)
 (*                            what was accepted (message was acknowledged) *)
+(*  DamagedMessageHanded      header/body handed to the target differ from *)
+(*                            what the queue was given, acknowledged or    *)
+(*                            not (decides C10, not C02)                   *)
 (*  DeliveredAfterAbort       an aborted transaction reached the target    *)
 (*  UnknownRecipient          an address handed that was never a recipient *)
 (*  ResentAfterTerminalOutcome a recipient whose latest outcome is terminal *)
@@ -64,7 +67,10 @@ LoopDone(o) ==
                                   o.cur[r] = "na" /\ o.termAt[r] # 0 /\ o.termAt[r] < o.att}]
 
 \* the target was handed header and body; intact = they are what was accepted
-DObsIntact(o, intact) == DV(o, (o.acked /\ ~o.aborted) => intact, "AcceptedMessageDamaged")
+\* (DamagedMessageHanded is the C10 clause "what the queue hands to the target is what it
+\* accepted", here for messages whose acceptance never completed)
+DObsIntact(o, intact) ==
+  DV(DV(o, (o.acked /\ ~o.aborted) => intact, "AcceptedMessageDamaged"), intact, "DamagedMessageHanded")
 
 DObsBody(o, res) ==
   LET o1 == LoopDone(o) IN
